@@ -181,6 +181,22 @@ class Extract(object):
             sc = RF(p_atom(self.atom(T.raw_op('pow2floor', w, b_l))))
             return [(c, f * sc) for (c, f) in self.cases(a_l, depth + 1)]
         if t is None:
+            rs = self._refuse_select(bv)
+            if rs is not None:
+                (c_, A_, B_) = rs
+                d = self.decide(c_, depth)
+                if d is not None:
+                    return self.cases(A_ if d else B_, depth + 1)
+                ck = T._key(T.canon(c_))
+                self.conds = getattr(self, 'conds', {})
+                self.conds[ck] = c_
+                out = []
+                for (arm, taken) in ((A_, True), (B_, False)):
+                    for (c, f) in self.cases(arm, depth + 1):
+                        m = _merge_conds([c, ((ck, taken),)])
+                        if m is not None:
+                            out.append((m, f))
+                return out
             inner = T.canon(T.fneg(bv))
             ti = T.single_term(inner)
             if ti is not None and (ti.kind == 'arg' or ti.name in self.ARITH or ti.name == 'sel' or True):
@@ -191,6 +207,14 @@ class Extract(object):
         if t.kind == 'arg':
             return [((), RF(p_atom(self.atom(bv))))]
         n = t.name
+        if n.startswith(('sitofp', 'uitofp')) and len(t.ops) == 1 and T.is_const(T.canon(t.ops[0])):
+            o = T.canon(t.ops[0])
+            v = T.const_val(o)
+            if n.startswith('sitofp') and v >> (T.width(o) - 1):
+                v -= 1 << T.width(o)
+            return [((), RF(p_const(v)))]
+        if n.startswith(('fpext', 'fptrunc')) and len(t.ops) == 1:
+            return self.cases(t.ops[0], depth + 1)     # a widening is exact, a narrowing is a rounding (erased)
         if n in self.ARITH:
             sub = [self.cases(o, depth + 1) for o in t.ops]
             out = []
@@ -214,6 +238,9 @@ class Extract(object):
                     raise NotReal('more than %d select cases' % self.max_cases)
             return out
         if n == 'sel':
+            d = self.decide(t.ops[0], depth)
+            if d is not None:
+                return self.cases(t.ops[1] if d else t.ops[2], depth + 1)
             ck = T._key(t.ops[0])
             out = []
             for (c, f) in self.cases(t.ops[1], depth + 1):
@@ -228,6 +255,94 @@ class Extract(object):
             self.conds[ck] = t.ops[0]
             return out
         return [((), RF(p_atom(self.atom(bv))))]
+
+    @staticmethod
+    def _refuse_select(bv):
+        """a full-width select that the normaliser distributed over bit fields: [sel(c, A[0:k], B[0:k]) ++ ...] == sel(c, A, B)"""
+        w = T.width(bv)
+        p0 = bv[0]
+        if p0[0] != 's' or p0[1].name != 'sel' or p0[2] != 0 or p0[3] != p0[1].width:
+            return None
+        c_, x_, y_ = p0[1].ops
+        k = p0[1].width
+
+        def widen(arm):
+            arm = T.canon(arm)
+            if len(arm) == 1 and arm[0][0] == 's' and arm[0][2] == 0 and arm[0][1].width == w:
+                return (('s', arm[0][1], 0, w),)
+            if len(arm) == 1 and arm[0][0] == 's' and arm[0][1].kind == 'arg' and arm[0][2] == 0 and arm[0][1].width == w:
+                return (('s', arm[0][1], 0, w),)
+            return None
+        cands_a = [widen(x_)] + [T.cat(x_, T.const(w - k, 0))]
+        cands_b = [widen(y_)] + [T.cat(y_, T.const(w - k, 0))]
+        for A_ in cands_a:
+            for B_ in cands_b:
+                if A_ is None or B_ is None:
+                    continue
+                if T._key(T.canon(T.sel(c_, A_, B_))) == T._key(bv):
+                    return (c_, T.canon(A_), T.canon(B_))
+        return None
+
+    def cases_abs(self, bv, depth=0):
+        """cases of the value up to its sign: a result assembled as [magnitude bits ++ separately computed sign bit]
+        (z ^ sign_bit, copysign) is read through its magnitude bits"""
+        bv = T.canon(bv)
+        w = T.width(bv)
+        if T.single_term(bv) is not None or T.is_const(bv):
+            return self.cases(bv, depth)
+        lowbits = T.canon(T.slice_(bv, 0, w - 1))
+        if len(lowbits) == 1 and lowbits[0][0] == 's':
+            (_, t, lo, ww) = lowbits[0]
+            if lo == 0 and ww == w - 1 and t.width == w:
+                return self.cases((('s', t, 0, w),), depth + 1)          # the low bits of a full-width arithmetic term
+            if lo == 0 and ww == t.width == w - 1 and t.name == 'sel':
+                d = self.decide(t.ops[0], depth)
+                arms = []
+                for (arm, taken) in ((t.ops[1], True), (t.ops[2], False)):
+                    if d is not None and d != taken:
+                        continue
+                    full = T.cat(arm, T.const(1, 0))
+                    sub = self.cases_abs(self._widen_slice(arm, w), depth + 1)
+                    ck = T._key(t.ops[0])
+                    for (c, f) in sub:
+                        m = _merge_conds([c, ((ck, taken),)]) if d is None else c
+                        if m is not None:
+                            arms.append((m, f))
+                return arms
+        return self.cases(bv, depth)
+
+    @staticmethod
+    def _widen_slice(arm, w):
+        """arm is the low w-1 bits of some w-bit term: give that term back (or the arm with a zero sign bit)"""
+        arm = T.canon(arm)
+        if len(arm) == 1 and arm[0][0] == 's' and arm[0][2] == 0 and arm[0][1].width == w:
+            return (('s', arm[0][1], 0, w),)
+        return T.cat(arm, T.const(1, 0))
+
+    def decide(self, cbv, depth):
+        """truth value of a 1-bit condition when it compares two constant-valued arithmetic terms (exact rationals), else None"""
+        cbv = T.canon(cbv)
+        if T.is_const(cbv):
+            return bool(T.const_val(cbv))
+        t = T.single_term(cbv)
+        if t is None or not t.name.startswith('f') or t.name[1:] not in ('oeq', 'one', 'olt', 'ole', 'ogt', 'oge', 'ueq', 'une', 'ult', 'ule', 'ugt', 'uge'):
+            return None
+        vals = []
+        for o in t.ops:
+            try:
+                cs = self.cases(o, depth + 1)
+            except NotReal:
+                return None
+            if len(cs) != 1 or cs[0][1].atoms():
+                return None
+            f = cs[0][1]
+            num = f.num.get((), Fr(0))
+            den = f.den.get((), Fr(0))
+            if den == 0:
+                return None
+            vals.append(num / den)
+        a, b = vals
+        return {'eq': a == b, 'ne': a != b, 'lt': a < b, 'le': a <= b, 'gt': a > b, 'ge': a >= b}[t.name[2:]]
 
     @staticmethod
     def _negation_of(bv, inner):
